@@ -46,12 +46,15 @@ def model(ctx, fam, mx, dev=(), expect_ok=True):
 # ---------------------------------------------------------------------------------------------
 # in-process: the counting rule and the sync loop
 
-def inproc_counting(kind, mx, jit, nconn, seed):
-    """serve nconn one-request connections through handle(); -> trace (pid = 1: one worker object)"""
+def inproc_counting(kind, mx, jit, nconn, seed, failing=False):
+    """serve nconn one-request connections through handle(); -> trace (pid = 1: one worker object).
+    failing: every other request makes the application raise (a handled request all the same)"""
     calls = []
 
     def app(environ, start_response):
         calls.append(1)
+        if failing and len(calls) % 2 == 0:
+            raise RuntimeError("boom")
         start_response("200 OK", [("Content-Length", "2")])
         return [b"ok"]
     import gunicorn.workers.base as wbase
@@ -70,12 +73,13 @@ def inproc_counting(kind, mx, jit, nconn, seed):
             stopped_at = i
             break            # the loop of every family re-checks alive before taking more work
         r = cdrv.serve(kind, cfg, [b"GET /%d HTTP/1.1\r\nHost: h\r\n\r\n" % i], app, worker=w, eof_dispatch=True)
-        ok = r.wire.startswith(b"HTTP/1.1 200 OK") and r.wire.endswith(b"ok") and r.escaped is None
+        ok = (r.wire.startswith(b"HTTP/1.1 200 OK") and r.wire.endswith(b"ok") or
+              (failing and r.wire.startswith(b"HTTP/1.1 500 "))) and r.escaped is None
         ev.append({"e": "resp", "ok": bool(ok), "pid": 1})
     alive = [1] if w.alive else []
     ev.append({"e": "end", "alive": alive if mx == 0 else ([1] if w.alive else [2]), "initial": [1]})
     return {"max": mx, "jit": jit, "allow": 0, "workers": 1, "npids": 2, "initial": [1], "ev": ev}, \
-        {"where": "inproc", "kind": kind, "limit": limit, "nr": w.nr, "served": len(calls)}
+        {"where": "inproc-failing" if failing else "inproc", "kind": kind, "limit": limit, "nr": w.nr, "served": len(calls)}
 
 
 class _Listener:
@@ -227,6 +231,9 @@ def c18(ctx):
         for mx in (0, 1, 2, 3, 5):
             for jit in (0, 1, 3):
                 t, m = inproc_counting(kind, mx, jit, 12, rng.randrange(10 ** 6))
+                traces.append(t)
+                metas.append(m)
+                t, m = inproc_counting(kind, mx, jit, 12, rng.randrange(10 ** 6), failing=True)
                 traces.append(t)
                 metas.append(m)
     for mx in (0, 1, 2, 3, 7):
